@@ -80,6 +80,8 @@ void writeXmlTextElement(QXmlStreamWriter *stream, QStringView name, QStringView
 void writeXmlTextElement(QXmlStreamWriter *writer, QStringView name, QStringView xmlns, QStringView value);
 void writeOptionalXmlTextElement(QXmlStreamWriter *writer, QStringView name, QStringView value);
 void writeEmptyElement(QXmlStreamWriter *writer, QStringView name, QStringView xmlns);
+// for namespace URIs that come from parsed data (QXmlStreamWriter writes namespace URIs verbatim)
+QXMPP_EXPORT void writeDefaultNamespaceEscaped(QXmlStreamWriter *writer, const QString &xmlns);
 template<typename T>
 inline void writeOptional(QXmlStreamWriter *writer, const std::optional<T> &value)
 {
